@@ -25,15 +25,16 @@ import (
 // StreamCase is the replayable input of one case: a byte stream, the partitions under which it
 // is read, the carrier, and (for streams produced by the real serialisers) what was written.
 type StreamCase struct {
-	Name     string   `json:"name"`
-	Carrier  string   `json:"carrier"`             // direct | b64 (base64 stream reader only) | tunnel (conn over base64 stream reader)
-	Stream   string   `json:"stream"`              // hex
-	Parts    [][]int  `json:"parts"`               // chunk sizes of each partition (remainder = last chunk); [] = one chunk; [-1] = 1-byte chunks
-	Expect   []string `json:"expect,omitempty"`    // formatted elements that were written ("" list = no expectation)
-	Written  bool     `json:"written,omitempty"`   // stream = back-to-back output of the real serialisers
-	Plain    string   `json:"plain,omitempty"`     // b64/tunnel: hex of the bytes that were encoded (expected decoder output)
-	MaxAlloc uint64   `json:"max_alloc,omitempty"` // memory clause: bound on bytes allocated while reading (0 = not checked)
-	NoModel  bool     `json:"no_model,omitempty"`  // very long streams: property oracle only
+	Name     string     `json:"name"`
+	Carrier  string     `json:"carrier"`             // direct | b64 (base64 stream reader only) | tunnel (conn over base64 stream reader)
+	Stream   string     `json:"stream"`              // hex
+	Parts    [][]int    `json:"parts"`               // chunk sizes of each partition (remainder = last chunk); [] = one chunk; [-1] = 1-byte chunks
+	Expect   []string   `json:"expect,omitempty"`    // formatted elements that were written ("" list = no expectation)
+	Written  bool       `json:"written,omitempty"`   // stream = back-to-back output of the real serialisers
+	Plain    string     `json:"plain,omitempty"`     // b64/tunnel: hex of the bytes that were encoded (expected decoder output)
+	MaxAlloc uint64     `json:"max_alloc,omitempty"` // memory clause: bound on bytes allocated while reading (0 = not checked)
+	NoModel  bool       `json:"no_model,omitempty"`  // very long streams: property oracle only
+	Elems    []ElemSpec `json:"elems,omitempty"`     // written cases: the elements; a replay serialises them again with the real code
 }
 
 func viol(c *corr.Ctx, in any, clause, key, detail string) {
@@ -237,7 +238,7 @@ func urlOps(stream []byte) []string {
 			continue
 		}
 		seen[tok] = true
-		u, err := base.ParseURL(tok)
+		u, err := safeParseURL(ctx0, tok)
 		if err != nil {
 			continue
 		}
